@@ -54,13 +54,13 @@ package bluemonday
 //@   reveal[C14] wfRegex
 //@   requires wfp(p) && p.initialized && r != nil && w != nil
 //@   requires[C16] !outFailed
-//@   modifies ghost outFailed, outN, outLast, outCount, tzCur, tzPrev, tzErr, sanEl, sanRes, lastErr, lastBuf, gD, gSP, gName, gBare, gKept, gCnt, gSkip, gTopBare, gTopKept
+//@   modifies ghost outFailed, outN, outLast, outCount, tzCur, tzPrev, tzErr, sanEl, sanRes, lastErr, lastBuf, gD, gSP, gName, gBare, gKept, gCnt, gSkip, gTopBare, gTopKept, gShadow
 //@   modifies nothing
 //@   ensures[C16] outFailed ==> result != nil
 //@   ensures[C16] result == nil ==> tzErr == io.EOF
 //@   requires[textpres] !p.allowUnsafe
 //@   requires[wellnested] gD == 0
-//@   requires[paired] gD == 0 && gSP == 0 && sel(gCnt, 0) == 0 && sel(gSkip, 0) == 0
+//@   requires[paired] gD == 0 && gSP == 0 && sel(gCnt, 0) == 0 && sel(gSkip, 0) == 0 && !gShadow
 //@   requires[strict] (forall e string :: !(e in p.elsAndAttrs)) && (forall r *regexp.Regexp :: !(r in p.elsMatchingAndAttrs)) && !p.allowComments && !p.allowUnsafe
 //@   at-call (*html.Tokenizer).Next
 //@     assume[wellnested] gD >= 0 && gD == old(gD) + ite(tzCur.Type == 2 && skipEl(p, tzCur.Data), 1, 0) - ite(tzCur.Type == 3 && skipEl(p, tzCur.Data), 1, 0)
@@ -81,6 +81,8 @@ package bluemonday
 //@     sets[C09,paired] gCnt = ite(isVoid(token.Data), gCnt, upd(gCnt, gSP, sel(gCnt, gSP - 1) + 1))
 //@   before#2 "if _, err := buff.WriteString(token.String()); err != nil {"
 //@     sets[C09,paired] gKept = ite(isVoid(token.Data), gKept, upd(gKept, gSP - 1, true))
+//@   before "closingTagToSkipStack = closingTagToSkipStack[:len(closingTagToSkipStack)-1]"
+//@     sets[C09,paired] gShadow = gShadow || !gTopBare
 //@   before "if skipClosingTag && closingTagToSkipStack[len(closingTagToSkipStack)-1] == token.Data {"
 //@     lemma[C09,paired] gTopBare ==> skipClosingTag && closingTagToSkipStack[len(closingTagToSkipStack)-1] == token.Data
 //@     lemma[C09,paired] skipClosingTag && closingTagToSkipStack[len(closingTagToSkipStack)-1] == token.Data ==> gTopBare || (exists k int :: 0 <= k && k < gSP && sel(gBare, k) && sel(gName, k) == token.Data)
@@ -103,7 +105,7 @@ package bluemonday
 //@     invariant[C07,clean] !skipElementContent && skippingElementsCount == 0 && !skipClosingTag && mostRecentlyStartedToken != "script" && mostRecentlyStartedToken != "style" && (tzCur.Type == 99 || outN == 1)
 //@     invariant[C08,wellnested] gD >= 0 && skippingElementsCount == gD && (skipElementContent <==> gD > 0)
 //@     invariant[C09,paired] gD >= 0 && skippingElementsCount == gD && (skipElementContent <==> gD > 0)
-//@     invariant[C09,paired] gSP >= 0 && sel(gCnt, 0) == 0 && sel(gSkip, 0) == 0 && gD == sel(gSkip, gSP) && len(closingTagToSkipStack) == sel(gCnt, gSP)
+//@     invariant[C09,paired] gShadow || (gSP >= 0 && sel(gCnt, 0) == 0 && sel(gSkip, 0) == 0 && gD == sel(gSkip, gSP) && len(closingTagToSkipStack) == sel(gCnt, gSP))
 //@     invariant[C09,paired] forall i int :: 0 <= i && i < gSP ==> sel(gCnt, i + 1) == sel(gCnt, i) + ite(sel(gBare, i), 1, 0) && sel(gSkip, i + 1) == sel(gSkip, i) + ite(skipEl(p, sel(gName, i)), 1, 0)
 //@     invariant[C09,paired] forall i int, j int :: 0 <= i && i <= j && j <= gSP ==> sel(gCnt, i) <= sel(gCnt, j)
 //@     invariant[C09,paired] forall i int :: 0 <= i && i <= gSP ==> sel(gSkip, i) >= 0 && sel(gCnt, i) >= 0
@@ -111,8 +113,9 @@ package bluemonday
 //@     invariant[C09,paired] forall i int :: 0 <= i && i < gSP && sel(gBare, i) ==> elAllowed(p, sel(gName, i)) && !(isScriptStyle(normalise(sel(gName, i))) && !p.allowUnsafe)
 //@     invariant[C09,paired] forall i int :: 0 <= i && i < gSP && sel(gBare, i) ==> closingTagToSkipStack[sel(gCnt, i)] == sel(gName, i)
 //@     invariant[C09,paired] forall i int :: 0 <= i && i < gSP ==> (sel(gKept, i) <==> keptSpec(p, sel(gName, i), sel(gBare, i), sel(gSkip, i)))
-//@     invariant[C09,paired] tzCur.Type == 3 && gTopKept ==> outN == 1 && outLast == TokString(tzCur, elems(tzCur.Attr))
+//@     invariant[C09,paired] gShadow || (tzCur.Type == 3 && gTopKept ==> outN == 1 && outLast == TokString(tzCur, elems(tzCur.Attr)))
 //@     invariant[C09,paired] tzCur.Type == 3 && !gTopKept ==> outN == 0 || (outN == 1 && outLast == " ")
+//@     invariant[C09,paired] !gShadow
 //@     invariant[C08,wellnested] forall i int :: 0 <= i && i < len(closingTagToSkipStack) ==> elAllowed(p, closingTagToSkipStack[i])
 //@     invariant[C08,wellnested] tzCur.Type == 1 && gD == 0 && mostRecentlyStartedToken != "script" && mostRecentlyStartedToken != "style" ==> outN == 1 && outLast == TokString(tzCur, elems(tzCur.Attr))
 //@   loop 1 "for regex := range p.elsMatchingAndAttrs"
@@ -134,7 +137,7 @@ package bluemonday
 //@   sets lastBuf = result
 //@   requires wfp(p) && p.initialized && r != nil
 //@   requires[C16] !outFailed
-//@   modifies ghost outFailed, outN, outLast, outCount, tzCur, tzPrev, tzErr, sanEl, sanRes, lastErr, lastBuf, gD, gSP, gName, gBare, gKept, gCnt, gSkip, gTopBare, gTopKept
+//@   modifies ghost outFailed, outN, outLast, outCount, tzCur, tzPrev, tzErr, sanEl, sanRes, lastErr, lastBuf, gD, gSP, gName, gBare, gKept, gCnt, gSkip, gTopBare, gTopKept, gShadow
 //@   modifies nothing
 //@   ensures result != nil && fresh(result)
 //@   ensures[C16] tzErr != io.EOF ==> bufEmpty(result)
@@ -144,7 +147,7 @@ package bluemonday
 //@   ensures[C15] result == lastBuf
 //@   requires wfp(p) && p.initialized && r != nil
 //@   requires[C16] !outFailed
-//@   modifies ghost outFailed, outN, outLast, outCount, tzCur, tzPrev, tzErr, sanEl, sanRes, lastErr, lastBuf, gD, gSP, gName, gBare, gKept, gCnt, gSkip, gTopBare, gTopKept
+//@   modifies ghost outFailed, outN, outLast, outCount, tzCur, tzPrev, tzErr, sanEl, sanRes, lastErr, lastBuf, gD, gSP, gName, gBare, gKept, gCnt, gSkip, gTopBare, gTopKept, gShadow
 //@   modifies nothing
 //@   ensures result != nil && fresh(result)
 //@   ensures[C16] tzErr != io.EOF ==> bufEmpty(result)
@@ -153,7 +156,7 @@ package bluemonday
 //@   ensures[C15] result == lastErr
 //@   requires wfp(p) && p.initialized && r != nil && w != nil
 //@   requires[C16] !outFailed
-//@   modifies ghost outFailed, outN, outLast, outCount, tzCur, tzPrev, tzErr, sanEl, sanRes, lastErr, lastBuf, gD, gSP, gName, gBare, gKept, gCnt, gSkip, gTopBare, gTopKept
+//@   modifies ghost outFailed, outN, outLast, outCount, tzCur, tzPrev, tzErr, sanEl, sanRes, lastErr, lastBuf, gD, gSP, gName, gBare, gKept, gCnt, gSkip, gTopBare, gTopKept, gShadow
 //@   modifies nothing
 //@   ensures[C16] outFailed ==> result != nil
 //@   ensures[C16] result == nil ==> tzErr == io.EOF
@@ -369,7 +372,7 @@ package bluemonday
 //@ func (*bluemonday.Policy).Sanitize
 //@   requires wfp(p) && p.initialized
 //@   requires[C16] !outFailed
-//@   modifies ghost outFailed, outN, outLast, outCount, tzCur, tzPrev, tzErr, sanEl, sanRes, lastErr, lastBuf, gD, gSP, gName, gBare, gKept, gCnt, gSkip, gTopBare, gTopKept
+//@   modifies ghost outFailed, outN, outLast, outCount, tzCur, tzPrev, tzErr, sanEl, sanRes, lastErr, lastBuf, gD, gSP, gName, gBare, gKept, gCnt, gSkip, gTopBare, gTopKept, gShadow
 //@   modifies nothing
 //@   ensures[C15] strings.TrimSpace(s) == "" ==> result == s
 //@   ensures[C15] strings.TrimSpace(s) != "" ==> result == bufStr(elems(lastBuf.buf), off(lastBuf.buf) + lastBuf.off, len(lastBuf.buf) - lastBuf.off)
@@ -377,7 +380,7 @@ package bluemonday
 //@ func (*bluemonday.Policy).SanitizeBytes
 //@   requires wfp(p) && p.initialized
 //@   requires[C16] !outFailed
-//@   modifies ghost outFailed, outN, outLast, outCount, tzCur, tzPrev, tzErr, sanEl, sanRes, lastErr, lastBuf, gD, gSP, gName, gBare, gKept, gCnt, gSkip, gTopBare, gTopKept
+//@   modifies ghost outFailed, outN, outLast, outCount, tzCur, tzPrev, tzErr, sanEl, sanRes, lastErr, lastBuf, gD, gSP, gName, gBare, gKept, gCnt, gSkip, gTopBare, gTopKept, gShadow
 //@   modifies nothing
 //@   ensures[C15] len(bytes.TrimSpace(b)) == 0 ==> result == b
 //@   ensures[C15] len(bytes.TrimSpace(b)) != 0 ==> string(result) == bufStr(elems(lastBuf.buf), off(lastBuf.buf) + lastBuf.off, len(lastBuf.buf) - lastBuf.off)
